@@ -2635,8 +2635,24 @@ func writeBodyFixedSize(w *bufio.Writer, r io.Reader, size int64) error {
 		}
 	}
 
-	n, err := copyBodyStream(w, r)
+	src := r
+	switch r.(type) {
+	case *os.File, *io.LimitedReader, BodyWriterTo, io.WriterTo:
+	default:
+		// An arbitrary stream may yield more than its declared size.
+		// Never put more than size bytes on the wire: the peer would take
+		// the excess for the beginning of the next message.
+		src = &io.LimitedReader{R: r, N: size}
+	}
 
+	n, err := copyBodyStream(w, src)
+
+	if n == size && err == nil && src != r {
+		var b [1]byte
+		if m, _ := r.Read(b[:]); m > 0 {
+			err = fmt.Errorf("body stream yields more than the declared %d bytes", size)
+		}
+	}
 	if n != size && err == nil {
 		err = fmt.Errorf("copied %d bytes from body stream instead of %d bytes", n, size)
 	}
